@@ -4,7 +4,7 @@
    (Proofs/HuffmanDecode.roundtrip = C07_roundtrip) on the built-in table, the int layer of
    messages is C08's (Proofs/VarintProofs.varint_roundtrip = C08_roundtrip). *)
 From LibTw2 Require Import Base.Res Model.Varint Model.Huffman Model.Demo Model.DemoHL
-  Proofs.DemoBase Proofs.DemoChunk Proofs.DemoFile Proofs.DemoHLProofs.
+  Proofs.DemoBase Proofs.DemoChunk Proofs.DemoFile Proofs.DemoHLProofs Proofs.DemoTyped Proofs.DemoBuilder.
 From LibTw2 Require Model.Snap.
 From Coq Require Import ZArith List Lia Bool.
 Import ListNotations.
@@ -140,21 +140,16 @@ Theorem C15_raw_tick_panics : forall p keyframe t, t <= p ->
   write_tick (Some p) keyframe t = Panic site_tick_order.
 Proof. exact raw_tick_not_increasing_panics. Qed.
 
-(* Typed layer.  Full statement (not proved here):
-     forall hdr hist, hl_writer_accepts hist ->
-       object_sets (hl_read (hl_write hdr hist)) = object_sets hist.
-   Proved: the demo layers between DemoWriter and DemoReader are transparent.  For every header
-   and EVERY history of write_snap / write_msg calls that run without panic (results Ok or any
-   Err), the reader is given exactly the raw chunks the calls emitted - per accepted write_snap a
-   tick marker carrying the key-frame flag of the 250-tick rule and ONE payload, which is the
-   Snap::write encoding of the snapshot built from the items (key frame) or the Delta::write
-   encoding of Delta::create(last written snapshot, it) (otherwise); per accepted write_msg the
-   message bytes zero-padded; nothing for a refused tick - and decodes them one after the other
-   with the snapshot decoders (hdecode = DemoReader::next_chunk without the file), with no
-   warning from the demo layer.  What is missing for the full statement is the snapshot codec's
-   own round trip along the chain of recycled builders (C09 / C10 prove it for snapshots built
-   from a fresh builder); the harness checks object-set equality on world histories instead. *)
-Theorem C15_typed_partial : forall sz i ops w b rs hb,
+(* Typed layer, first half: the demo layers between DemoWriter and DemoReader are transparent.
+   For every header and EVERY history of write_snap / write_msg calls that run without panic
+   (results Ok or any Err), the reader is given exactly the raw chunks the calls emitted - per
+   accepted write_snap a tick marker carrying the key-frame flag of the 250-tick rule and ONE
+   payload, which is the Snap::write encoding of the snapshot built from the items (key frame) or
+   the Delta::write encoding of Delta::create(last written snapshot, it) (otherwise); per accepted
+   write_msg the message bytes zero-padded; nothing for a refused tick - and decodes them one
+   after the other with the snapshot decoders (hdecode = DemoReader::next_chunk without the
+   file), with no warning from the demo layer. *)
+Theorem C15_transport : forall sz i ops w b rs hb,
   winput_ok i = true -> forallb hop_ok ops = true -> writer_new i = Ok hb ->
   hrun sz hwriter_new ops = (w, b, rs) -> no_failure rs = true ->
   exists h cs,
@@ -162,6 +157,31 @@ Theorem C15_typed_partial : forall sz i ops w b rs hb,
     /\ header_view h = expected_view i
     /\ hist_shape sz hwriter_new ops cs.
 Proof. exact hl_transport. Qed.
+
+(* Typed layer: object_sets (hl_read (hl_write hdr hist)) = object_sets hist.
+   An object is what the writer hands to the snapshot builder - its type id (ordinal or UUID),
+   its id and the words of encode() - and a game message is the bytes msg.encode writes (the
+   SnapObj / Game codecs themselves are C14's; here they are covered by the harness).
+   For every header and EVERY history of write_snap / write_msg calls each of which is accepted
+   or is a refused tick (objects with type ids and ids in range and i32 words; any number of
+   key-frame intervals; ordinal and UUID types appearing and vanishing in any order), DemoReader
+   reads the file to a clean end with no warning at all and reports exactly (`reports`):
+     - for every accepted write_snap(tick, objects): Tick(tick), then a Snapshot whose items are
+       `objects` in some order - nothing stale, missing or altered, key frame or delta;
+     - for every accepted write_msg: the message bytes, zero-padded to a multiple of four;
+     - nothing for a refused tick.
+   Proved by induction over the history with the invariant "the reader's snapshot holds the same
+   items and the same type registry as the writer's", through Snap::write / read, Delta::create /
+   write / read / read_with_delta and Snap::recycle (Proofs/DemoTyped.v, on the lemmas of the
+   snapshot block), and "the builder holds nothing but its registry" (Proofs/DemoBuilder.v). *)
+Theorem C15_typed : forall sz i ops w b rs hb,
+  winput_ok i = true -> forallb hop_typed_ok ops = true -> writer_new i = Ok hb ->
+  hrun sz hwriter_new ops = (w, b, rs) -> forallb accepted_res rs = true ->
+  exists h chunks,
+    hread_all sz (hb ++ b) = Ok (h, [], (map (fun c => (c, [])) chunks, (Ok tt, [])))
+    /\ header_view h = expected_view i
+    /\ reports ops rs chunks.
+Proof. exact hl_typed_full. Qed.
 
 (* K15W (known finding): an error other than the tick refusal leaves the writer corrupted.  A
    duplicate key is refused, but the items added before it stay in the builder and come back
@@ -201,7 +221,16 @@ Example C15_nonvacuous :
   /\ chdr_read V3 [130; 9] = (Ok (Some (HTick (TDelta 2) false, [9])), [])
   /\ write_tick (Some 5) false 5 = Panic site_tick_order
   /\ (let w := fst (fst (write_snap (osize_of []) hwriter_new 5 [])) in
-      hw_last_tick w = 5 /\ write_snap (osize_of []) w 5 [] = (w, [], Err HTooLowTickNumber)).
+      hw_last_tick w = 5 /\ write_snap (osize_of []) w 5 [] = (w, [], Err HTooLowTickNumber))
+  /\ (let ops := [HSnap 3 [(Snap.Ordinal 5, 1, [1; 2; 3]); (Snap.Uuid 1000, 0, [9])];
+                  HSnap 3 []; HMsg [7; 8];
+                  HSnap 4 [(Snap.Uuid 77, 0, [4; 4]); (Snap.Ordinal 5, 1, [1; 2; 4])]] in
+      forallb hop_typed_ok ops = true
+      /\ snd (hrun (osize_of [(5, 3)]) hwriter_new ops) = [Ok tt; Err HTooLowTickNumber; Ok tt; Ok tt]
+      /\ expected (osize_of [(5, 3)]) hwriter_new ops
+         = [HCTick 3; HCSnapshot [(Snap.Ordinal 5, 1, [1; 2; 3]); (Snap.Uuid 1000, 0, [9])];
+            HCMessage [7; 8; 0; 0];
+            HCTick 4; HCSnapshot [(Snap.Ordinal 5, 1, [1; 2; 4]); (Snap.Uuid 77, 0, [4; 4])]]).
 Proof. vm_compute. repeat split. Qed.
 
 Print Assumptions C15_raw.
@@ -214,6 +243,7 @@ Print Assumptions C15_K15H_refuted.
 Print Assumptions C15_refuse_tick.
 Print Assumptions C15_accept_tick.
 Print Assumptions C15_raw_tick_panics.
-Print Assumptions C15_typed_partial.
+Print Assumptions C15_transport.
+Print Assumptions C15_typed.
 Print Assumptions C15_K15W_refuted.
 Print Assumptions C15_nonvacuous.
